@@ -204,7 +204,7 @@ def run(ck):
         seen.add(key)
         ck.report(dict(input=cases[ci]["line"], roles=cases[ci]["roles"], iteration=itn, config=dict(threads=1)), oracle=key, key="population:" + key,
                   what="after iteration %s: %s" % (itn, f))
-    if broken and not fails:
+    if broken and not ck.violations:
         ci, itn, d = broken[0]
         ck.report(dict(input=cases[ci]["line"], iteration=itn, difference=d), unchecked="correspondence Population.v = ids/counter of the real solver",
                   what="model and implementation disagree (%s); the property oracle found no failing input" % d)
